@@ -45,6 +45,7 @@ UNIT_PAIRS = [('gram', 'milligram'), ('second', 'minute'), ('liter', 'liter')]
 def strategy_(draw, tier):
     if draw(st.integers(0, 2)) == 0:
         spec = draw(struct.histories(viewers=False, residents=True,
+                                     replace_ok=True,
                                      inc_ok=False, step_op_ok=True))
         spec['kind'] = 'struct'
         return spec
@@ -159,7 +160,7 @@ def prune(tree):
     return tree
 
 
-def run_flags_once(spec, emit_step):
+def run_flags_once(spec, emit_step, store_schema=None):
     from vivarium.core.engine import Engine
     ctx = kit.Context(t0=spec['t0'])
     ctx.snap = True
@@ -181,7 +182,9 @@ def run_flags_once(spec, emit_step):
                       emit_step=emit_step, initial_global_time=spec['t0'])
         if steps:
             kwargs.update(steps=steps, flow=flow)
-        ss = store_schema_of(spec)
+        # (the same store_schema object may be handed to several engines)
+        ss = store_schema if store_schema is not None else \
+            store_schema_of(spec)
         if ss:
             kwargs['store_schema'] = ss
         init = {}
@@ -218,7 +221,9 @@ def run_flags(spec, res):
         res.label('emit_step>1')
     res.nontrivial = (len(vals) > 1 and branch_override) or \
         spec['emit_step'] != 1
-    log = run_flags_once(spec, spec['emit_step'])
+    shared_ss = store_schema_of(spec)
+    ss_before = copy.deepcopy(shared_ss)
+    log = run_flags_once(spec, spec['emit_step'], shared_ss)
     emits = [ev for ev in log if ev[0] == 'emit']
     if not emits or emits[0][1] != 'configuration':
         res.fail('first_record', 'first emitted record is %r'
@@ -279,7 +284,9 @@ def run_flags(spec, res):
             res.fail('row.times', 'row times decrease: %r' % (times,),
                      'engine.py:run_for')
             return
-        base = run_flags_once(spec, 1)
+        base = run_flags_once(spec, 1, shared_ss)
+        if shared_ss != ss_before:
+            res.label('store_schema.modified_by_engine')
         rows1 = {}
         for ev in base:
             if ev[0] == 'emit' and ev[1] == 'history':
